@@ -315,6 +315,23 @@ fn sweeps(g: &mut SplitMix64, nsamplers: usize) {
                 stat("sweeps_warmup_panicked", 1);
                 break;
             }
+            let mut labels = check_labels(&smp, "after a full time step");
+            if kind.contains("rvb") {
+                // explicit RVB sweeps (and a cluster step) right before the examined diagonal step; labels checked after each call
+                for _ in 0..g.range(0, 3) {
+                    if catch(|| smp.rvb_sweep()).is_err() {
+                        break;
+                    }
+                    labels = labels.and_then(|_| check_labels(&smp, "after single_rvb_sweep"));
+                    stat("sweeps_explicit_rvb_sweep", 1);
+                }
+                if g.chance(1, 4) && catch(|| smp.cluster_step()).is_ok() {
+                    labels = labels.and_then(|_| check_labels(&smp, "after single_cluster_step"));
+                }
+            }
+            // every third examined step of an Ising sampler is a drain: at beta = 1e-12 every operator with inputs == outputs has to go
+            let drain = matches!(smp, Smp::Ising(..)) && g.chance(1, 3);
+            let step_beta = if drain { 1e-12 } else { beta };
             if step == 3 && partner.is_none() && g.coin() {
                 // toggling must leave the sampler consistent
                 enable_heatbath(&mut smp, !heat);
@@ -323,13 +340,13 @@ fn sweeps(g: &mut SplitMix64, nsamplers: usize) {
             // snapshot / restore idiom: re-install the (sparse) operator string through `FastOps::new_from_ops`
             let restored = g.chance(1, 3) && restore_from_ops(&mut smp);
             let count_before = check_count(&smp, if restored { "right after new_from_ops" } else { "before the diagonal step" });
-            let cfg = cfg_of(&smp, beta);
+            let cfg = cfg_of(&smp, step_beta);
             let table = smp.table();
             rng.take_log();
-            if let Err(p) = catch(|| smp.sweep(beta)) {
+            if let Err(p) = catch(|| smp.sweep(step_beta)) {
                 emit(
                     true,
-                    &format!("sweep-panic {} {} {} {} {} {}", kind, show_table_ham(&cfg.bonds), rat(beta), cfg.cutoff, bits(&cfg.state), show_cfg_slots(&cfg.slots)),
+                    &format!("sweep-panic {} {} {} {} {} {}", kind, show_table_ham(&cfg.bonds), rat(step_beta), cfg.cutoff, bits(&cfg.state), show_cfg_slots(&cfg.slots)),
                     "PANIC",
                     Some(Err(format!("diagonal step panicked{}: {}", if restored { " on a string installed with new_from_ops" } else { "" }, p))),
                 );
@@ -338,7 +355,13 @@ fn sweeps(g: &mut SplitMix64, nsamplers: usize) {
             let log = rng.take_log();
             let out = RunOut { slots: smp.slots(), state: smp.state(), n: smp.get_n(), log: log.clone(), calls: vec![] };
             let after_table = smp.table();
-            let mut oracle = count_before.and_then(|_| sweep_oracle(&cfg, &out));
+            let mut oracle = labels.and_then(|_| count_before).and_then(|_| sweep_oracle(&cfg, &out)).and_then(|_| check_labels(&smp, "after the diagonal step"));
+            if oracle.is_ok() && drain {
+                if let Some((p, _)) = out.slots.iter().enumerate().find(|(_, o)| o.as_ref().map(|op| op.get_inputs() == op.get_outputs()).unwrap_or(false)) {
+                    oracle = Err(format!("{} diagonal step at beta = 1e-12 left an operator with inputs == outputs at p={}", if heat { "heat-bath" } else { "default" }, p));
+                }
+                stat(&format!("sweeps_drain_{}", kind), 1);
+            }
             if restored {
                 stat("sweeps_on_string_restored_with_new_from_ops", 1);
                 if cfg.slots.iter().rev().skip_while(|o| o.is_none()).any(|o| o.is_none()) {
@@ -354,7 +377,7 @@ fn sweeps(g: &mut SplitMix64, nsamplers: usize) {
                 // generic sampler builds its table lazily inside diagonal_update: the table it used is the one stored afterwards
                 (None, true) => format!("hsweep {} {}", show_table_ham(&cfg.bonds), show_table(&after_table)),
             };
-            let input = format!("{} {} {} {} {} {}", head, rat(beta), cfg.cutoff, bits(&cfg.state), show_cfg_slots(&cfg.slots), words(&log));
+            let input = format!("{} {} {} {} {} {}", head, rat(step_beta), cfg.cutoff, bits(&cfg.state), show_cfg_slots(&cfg.slots), words(&log));
             let output = format!("{} {} ok", show_cfg_slots(&out.slots), bits(&out.state));
             stat(&format!("sweeps_{}_{}", kind, if heat { "heatbath" } else { "metropolis" }), 1);
             if has_h {
